@@ -551,21 +551,24 @@ void pzgstrf_WorkFree(int_t *iwork, doublecomplex *dwork, GlobalLU_t *Glu)
     if ( whichspace == SYSTEM ) {
 	SUPERLU_FREE (iwork);
 	SUPERLU_FREE (dwork);
-    } else {
-#if ( MACH==PTHREAD ) /* Use pthread ... */
-        pthread_mutex_lock( &stack.lock );
-#elif ( MACH==OPENMP ) /* Use openMP ... */
-#pragma omp critical ( STACK_LOCK )
-#endif
-        {
-	    stack.used -= (stack.size - stack.top2);
-	    stack.top2 = stack.size;
-	    
-	    /*	pzgstrf_StackCompress(Glu);  */
-        }
-#if ( MACH==PTHREAD ) /* Use pthread ... */
-        pthread_mutex_unlock( &stack.lock );
-#endif
+    }
+    /* In a user-supplied work space the per-thread arrays sit at the tail
+       of one stack shared by all threads: a thread that finishes early
+       must not pop it while the others still use (or are about to
+       allocate) theirs. pzgstrf_WorkFreeAll() releases the tail after
+       all threads have finished. */
+}
+
+/*
+ * Release the working storage of all threads from the tail of the
+ * user-supplied work space. Called once after the threads have finished.
+ */
+void pzgstrf_WorkFreeAll()
+{
+    if ( whichspace == USER ) {
+	stack.used -= (stack.size - stack.top2);
+	stack.top2 = stack.size;
+	/*	pzgstrf_StackCompress(Glu);  */
     }
 }
 
